@@ -270,7 +270,19 @@ def cases(draw: Any, prop: str, tier: str) -> dict:
             ci = d.int(0, len(lay["classes"]) - 1)
             sigs = sorted(effective_sigs(lay, ci))
             if sigs:
-                ops.append({"op": "classuse", "cls": ci, "attr": d.pick(sigs), "how": d.pick(["dispatch", "stream", "wait", "stream_func"])})
+                how = d.pick(["dispatch", "stream", "wait", "stream_func", "stream_mixed", "wait_mixed"])
+                o = {"op": "classuse", "cls": ci, "attr": d.pick(sigs), "how": how}
+                if how.endswith("_mixed"):
+                    o["bound"] = list(d.pick(chans))  # a bound signal listed BEFORE the unbound one
+                ops.append(o)
+                if how.endswith("_mixed"):
+                    # the failed call must leave nothing behind on the bound signal
+                    c = tuple(o["bound"])
+                    ops.append({"op": "dispatch", "ch": list(c), "k": payload % 7, "sub": False})
+                    for s in live:
+                        if c in s.chans and len(s.fifo) < s.maxq:
+                            s.fifo.append((0, payload % 7))
+                    payload += 1
         elif kind == "wait":
             k = d.int(1, 2)
             cs = []
@@ -637,6 +649,14 @@ class SeqInterp:
                         elif op["how"] == "stream_func":
                             async with stream_events([declared]):
                                 pass
+                        elif op["how"] == "stream_mixed":
+                            b = tuple(op["bound"])
+                            async with stream_events([getattr(insts[b[0]], b[1]), declared]):
+                                pass
+                        elif op["how"] == "wait_mixed":
+                            b = tuple(op["bound"])
+                            with anyio.move_on_after(5):
+                                await wait_event([getattr(insts[b[0]], b[1]), declared])
                         else:
                             with anyio.move_on_after(5):
                                 await declared.wait_event()
